@@ -210,6 +210,18 @@ class C17(Property):
                     pts.append((g.f32(x + rng.uniform(-jit, jit)), g.f32(y + rng.uniform(-jit, jit)), None))
                 pts[0] = (pts[0][0], pts[0][1], "B")
                 tag = "bezier-long-gentle"
+            elif k < 0.63:
+                # arcs of a LARGE circle (radius 15 000 - 60 000, inside the decoder's coordinate range, well conditioned): long arcs that
+                # still need fewer than 1000 samples are arcs, not Bezier fallbacks (seed C17-s: an arc-length threshold in front of the count test)
+                r = rng.uniform(15000, 60000)
+                t0 = rng.uniform(0, 6.28)
+                sweep = rng.uniform(0.8, 5.2) * rng.choice([-1, 1])
+                cx, cy = rng.uniform(-20000, 20000), rng.uniform(-20000, 20000)
+                ps = [(cx + r * math.cos(t0 + f * sweep), cy + r * math.sin(t0 + f * sweep)) for f in (0.0, rng.uniform(0.3, 0.7), 1.0)]
+                if max(abs(c) for p_ in ps for c in p_) > 131000:
+                    continue
+                pts = [(float(round(ps[0][0])), float(round(ps[0][1])), "P"), (float(round(ps[1][0])), float(round(ps[1][1])), None), (float(round(ps[2][0])), float(round(ps[2][1])), None)]
+                tag = "arc-large-radius"
             elif k < 0.75:
                 m = rng.randint(2, 8)
                 x, y = rng.uniform(-300, 700), rng.uniform(-300, 700)
